@@ -181,7 +181,7 @@ func runC02(c *eng.Ctx, tier string) {
 // c02Numbers: R-C02-3.
 func c02Numbers(c *eng.Ctx, d *dbInfo, k *kvAnalysis) {
 	n := 0
-	var incStores []kvWrite
+	var incStores, rollbacks []kvWrite
 	for _, w := range k.writes {
 		if w.Loc != "secret.LatestVersion" {
 			continue
@@ -193,8 +193,7 @@ func c02Numbers(c *eng.Ctx, d *dbInfo, k *kvAnalysis) {
 			v, isC := eng.ConstInt(w.Val)
 			c.Check(isC && v == 1, "R-C02-3", w.Fn, w.In.Pos(), site+" [new secret]", "a new secret starts its counter at 1", "value "+eng.ValStr(w.Val))
 		case w.Rollback != nil:
-			cv, op, ok := incOf(w.Val, w.Addr)
-			c.Check(ok && cv == 1 && op == token.SUB, "R-C02-3", w.Fn, w.In.Pos(), site+" [rollback]", "the counter is only decremented by one to undo a failed put", "value "+eng.ValStr(w.Val))
+			rollbacks = append(rollbacks, w)
 		default:
 			cv, op, ok := incOf(w.Val, w.Addr)
 			c.Check(ok && cv == 1 && op == token.ADD, "R-C02-3", w.Fn, w.In.Pos(), site, "the counter only moves by +1 from its own previous value (never recomputed from the set of versions, which would reuse numbers after a delete)", "value "+eng.ValStr(w.Val))
@@ -202,6 +201,21 @@ func c02Numbers(c *eng.Ctx, d *dbInfo, k *kvAnalysis) {
 				incStores = append(incStores, w)
 			}
 		}
+	}
+	for _, w := range rollbacks {
+		cv, op, ok := incOf(w.Val, w.Addr)
+		ok = ok && cv == 1 && op == token.SUB
+		if !ok {
+			// or: puts back the value the counter held before the increment
+			for _, inc := range incStores {
+				if inc.Fn == w.Fn {
+					if comp, _ := k.compensates(w, inc); comp {
+						ok = true
+					}
+				}
+			}
+		}
+		c.Check(ok, "R-C02-3", w.Fn, w.In.Pos(), eng.InstrStr(w.In)+" [rollback]", "a failed put only takes the counter back by the one step it advanced (decrement by one, or the value read before the increment)", "value "+eng.ValStr(w.Val))
 	}
 	if n < 3 {
 		c.Undecided("R-C02-3", nil, 0, "stores to secret.LatestVersion", "fewer than 3 found")
@@ -475,7 +489,7 @@ func secretsKeyIsOwnName(c *eng.Ctx, rule string) {
 			}
 		}
 		for _, m := range eng.MapOps(f) {
-			if !m.SrcOK || !m.Src.Is("db", "kv", "secrets") || m.Key == nil {
+			if !m.SrcOK || !isKVRole(curProg, m.Src, "secrets") || m.Key == nil {
 				continue
 			}
 			c.Check(nameP != nil && eng.Origin(m.Key) == ssa.Value(nameP), rule, f, m.In.Pos(), "secrets map "+m.Kind+" with key "+eng.ValStr(m.Key), "the key is the operation's own name parameter (operations on one name never touch another)", "key is "+eng.ValStr(m.Key))
